@@ -385,21 +385,21 @@ impl<Aux> Vm<'_, Aux> {
             match instr {
                 Instruction::InitTable => {
                     let res = self.init_table().map_err(|err| {
-                        payload_to_error(err, *instr_ptr, &self.runtime_data.call_stack)
+                        payload_to_error(err, src_ptr, &self.runtime_data.call_stack)
                     })?;
                     self.stack_push(Value::Object(res.0)).map_err(|err| {
-                        payload_to_error(err, *instr_ptr, &self.runtime_data.call_stack)
+                        payload_to_error(err, src_ptr, &self.runtime_data.call_stack)
                     })?;
                 }
                 Instruction::GetProperty => {
                     let key = self.stack_pop();
                     let instance = self.stack_pop();
                     let table = get_table(&instance).map_err(|err| {
-                        payload_to_error(err, *instr_ptr, &self.runtime_data.call_stack)
+                        payload_to_error(err, src_ptr, &self.runtime_data.call_stack)
                     })?;
                     let result = table.get(&key).copied().unwrap_or(Value::Nil);
                     self.stack_push(result).map_err(|err| {
-                        payload_to_error(err, *instr_ptr, &self.runtime_data.call_stack)
+                        payload_to_error(err, src_ptr, &self.runtime_data.call_stack)
                     })?;
                 }
                 Instruction::SetProperty => {
@@ -416,17 +416,17 @@ impl<Aux> Vm<'_, Aux> {
                     });
                     self.runtime_data.value_stack.pop_n::<3>();
                     result.map_err(|err| {
-                        payload_to_error(err, *instr_ptr, &self.runtime_data.call_stack)
+                        payload_to_error(err, src_ptr, &self.runtime_data.call_stack)
                     })?;
                 }
                 Instruction::BeginForEach => {
                     instr_execution::begin_for_each(self, &program.bytecode, instr_ptr).map_err(
-                        |err| payload_to_error(err, *instr_ptr, &self.runtime_data.call_stack),
+                        |err| payload_to_error(err, src_ptr, &self.runtime_data.call_stack),
                     )?;
                 }
                 Instruction::ForEach => {
                     instr_execution::for_each(self, &program.bytecode, instr_ptr).map_err(
-                        |err| payload_to_error(err, *instr_ptr, &self.runtime_data.call_stack),
+                        |err| payload_to_error(err, src_ptr, &self.runtime_data.call_stack),
                     )?;
                 }
                 Instruction::GotoIfTrue => {
@@ -461,7 +461,7 @@ impl<Aux> Vm<'_, Aux> {
                     self.stack_push(a).unwrap();
                 }
                 Instruction::ScalarNil => self.stack_push(Value::Nil).map_err(|err| {
-                    payload_to_error(err, *instr_ptr, &self.runtime_data.call_stack)
+                    payload_to_error(err, src_ptr, &self.runtime_data.call_stack)
                 })?,
                 Instruction::ClearStack => {
                     let offset = self
@@ -474,12 +474,12 @@ impl<Aux> Vm<'_, Aux> {
                 }
                 Instruction::SetLocalVar => {
                     instr_execution::set_local(self, &program.bytecode, instr_ptr).map_err(
-                        |err| payload_to_error(err, *instr_ptr, &self.runtime_data.call_stack),
+                        |err| payload_to_error(err, src_ptr, &self.runtime_data.call_stack),
                     )?;
                 }
                 Instruction::ReadLocalVar => {
                     instr_execution::get_local(self, &program.bytecode, instr_ptr).map_err(
-                        |err| payload_to_error(err, *instr_ptr, &self.runtime_data.call_stack),
+                        |err| payload_to_error(err, src_ptr, &self.runtime_data.call_stack),
                     )?;
                 }
                 Instruction::SetGlobalVar => {
@@ -489,13 +489,13 @@ impl<Aux> Vm<'_, Aux> {
                         instr_ptr,
                     )
                     .map_err(|err| {
-                        payload_to_error(err, *instr_ptr, &self.runtime_data.call_stack)
+                        payload_to_error(err, src_ptr, &self.runtime_data.call_stack)
                     })?;
                 }
                 Instruction::ReadGlobalVar => {
                     instr_execution::instr_read_var(&mut self.runtime_data, instr_ptr, program)
                         .map_err(|err| {
-                            payload_to_error(err, *instr_ptr, &self.runtime_data.call_stack)
+                            payload_to_error(err, src_ptr, &self.runtime_data.call_stack)
                         })?;
                 }
                 Instruction::Pop => {
@@ -504,18 +504,18 @@ impl<Aux> Vm<'_, Aux> {
                 Instruction::CallFunction => {
                     instr_execution::instr_call_function(src_ptr, instr_ptr, program, self)
                         .map_err(|err| {
-                            payload_to_error(err, *instr_ptr, &self.runtime_data.call_stack)
+                            payload_to_error(err, src_ptr, &self.runtime_data.call_stack)
                         })?;
                 }
                 Instruction::Return => {
                     instr_execution::instr_return(self, instr_ptr).map_err(|err| {
-                        payload_to_error(err, *instr_ptr, &self.runtime_data.call_stack)
+                        payload_to_error(err, src_ptr, &self.runtime_data.call_stack)
                     })?;
                 }
                 Instruction::Exit => return Ok(()),
                 Instruction::CopyLast => {
                     instr_execution::instr_copy_last(self).map_err(|err| {
-                        payload_to_error(err, *instr_ptr, &self.runtime_data.call_stack)
+                        payload_to_error(err, src_ptr, &self.runtime_data.call_stack)
                     })?;
                 }
                 Instruction::NativeFunctionPointer => {
@@ -525,11 +525,11 @@ impl<Aux> Vm<'_, Aux> {
                         instr_execution::read_str(&mut (handle as usize), program.data.as_slice())
                             .ok_or(ExecutionErrorPayload::InvalidArgument { context: None })
                             .map_err(|err| {
-                                payload_to_error(err, *instr_ptr, &self.runtime_data.call_stack)
+                                payload_to_error(err, src_ptr, &self.runtime_data.call_stack)
                             })?;
                     let handle = Handle::from_str(fun_name).unwrap();
                     let obj = self.init_native_function(handle).map_err(|err| {
-                        payload_to_error(err, *instr_ptr, &self.runtime_data.call_stack)
+                        payload_to_error(err, src_ptr, &self.runtime_data.call_stack)
                     })?;
                     let val = Value::Object(obj.0);
                     self.runtime_data
@@ -539,7 +539,7 @@ impl<Aux> Vm<'_, Aux> {
                         .map_err(|err| {
                             // free the object on Stackoverflow
                             self.runtime_data.free_object(obj.0);
-                            payload_to_error(err, *instr_ptr, &self.runtime_data.call_stack)
+                            payload_to_error(err, src_ptr, &self.runtime_data.call_stack)
                         })?;
                 }
                 Instruction::FunctionPointer => {
@@ -549,7 +549,7 @@ impl<Aux> Vm<'_, Aux> {
                         unsafe { instr_execution::decode_value(&program.bytecode, instr_ptr) };
 
                     let obj = self.init_function(hash, arity).map_err(|err| {
-                        payload_to_error(err, *instr_ptr, &self.runtime_data.call_stack)
+                        payload_to_error(err, src_ptr, &self.runtime_data.call_stack)
                     })?;
 
                     let val = Value::Object(obj.0);
@@ -561,7 +561,7 @@ impl<Aux> Vm<'_, Aux> {
                         .map_err(|err| {
                             // free the object on Stackoverflow
                             self.runtime_data.free_object(obj.0);
-                            payload_to_error(err, *instr_ptr, &self.runtime_data.call_stack)
+                            payload_to_error(err, src_ptr, &self.runtime_data.call_stack)
                         })?;
                 }
                 Instruction::Closure => {
@@ -571,7 +571,7 @@ impl<Aux> Vm<'_, Aux> {
                         unsafe { instr_execution::decode_value(&program.bytecode, instr_ptr) };
 
                     let obj = self.init_closure(hash, arity).map_err(|err| {
-                        payload_to_error(err, *instr_ptr, &self.runtime_data.call_stack)
+                        payload_to_error(err, src_ptr, &self.runtime_data.call_stack)
                     })?;
 
                     let val = Value::Object(obj.0);
@@ -583,7 +583,7 @@ impl<Aux> Vm<'_, Aux> {
                         .map_err(|err| {
                             // free the object on Stackoverflow
                             self.runtime_data.free_object(obj.0);
-                            payload_to_error(err, *instr_ptr, &self.runtime_data.call_stack)
+                            payload_to_error(err, src_ptr, &self.runtime_data.call_stack)
                         })?;
                 }
                 Instruction::ScalarInt => {
@@ -594,7 +594,7 @@ impl<Aux> Vm<'_, Aux> {
                         }))
                         .map_err(|_| ExecutionErrorPayload::Stackoverflow)
                         .map_err(|err| {
-                            payload_to_error(err, *instr_ptr, &self.runtime_data.call_stack)
+                            payload_to_error(err, src_ptr, &self.runtime_data.call_stack)
                         })?;
                 }
                 Instruction::ScalarFloat => {
@@ -605,7 +605,7 @@ impl<Aux> Vm<'_, Aux> {
                         }))
                         .map_err(|_| ExecutionErrorPayload::Stackoverflow)
                         .map_err(|err| {
-                            payload_to_error(err, *instr_ptr, &self.runtime_data.call_stack)
+                            payload_to_error(err, src_ptr, &self.runtime_data.call_stack)
                         })?;
                 }
                 Instruction::Not => {
@@ -613,62 +613,62 @@ impl<Aux> Vm<'_, Aux> {
                     let value = !value.as_bool();
                     self.stack_push(Value::Integer(value as i64))
                         .map_err(|err| {
-                            payload_to_error(err, *instr_ptr, &self.runtime_data.call_stack)
+                            payload_to_error(err, src_ptr, &self.runtime_data.call_stack)
                         })?;
                 }
                 Instruction::And => self
                     .binary_op(|a, b| Value::from(a.as_bool() && b.as_bool()))
                     .map_err(|err| {
-                        payload_to_error(err, *instr_ptr, &self.runtime_data.call_stack)
+                        payload_to_error(err, src_ptr, &self.runtime_data.call_stack)
                     })?,
                 Instruction::Or => self
                     .binary_op(|a, b| Value::from(a.as_bool() || b.as_bool()))
                     .map_err(|err| {
-                        payload_to_error(err, *instr_ptr, &self.runtime_data.call_stack)
+                        payload_to_error(err, src_ptr, &self.runtime_data.call_stack)
                     })?,
                 Instruction::Xor => self
                     .binary_op(|a, b| Value::from(a.as_bool() ^ b.as_bool()))
                     .map_err(|err| {
-                        payload_to_error(err, *instr_ptr, &self.runtime_data.call_stack)
+                        payload_to_error(err, src_ptr, &self.runtime_data.call_stack)
                     })?,
                 Instruction::Add => self.binary_op(|a, b| a + b).map_err(|err| {
-                    payload_to_error(err, *instr_ptr, &self.runtime_data.call_stack)
+                    payload_to_error(err, src_ptr, &self.runtime_data.call_stack)
                 })?,
                 Instruction::Sub => self.binary_op(|a, b| a - b).map_err(|err| {
-                    payload_to_error(err, *instr_ptr, &self.runtime_data.call_stack)
+                    payload_to_error(err, src_ptr, &self.runtime_data.call_stack)
                 })?,
                 Instruction::Mul => self.binary_op(|a, b| a * b).map_err(|err| {
-                    payload_to_error(err, *instr_ptr, &self.runtime_data.call_stack)
+                    payload_to_error(err, src_ptr, &self.runtime_data.call_stack)
                 })?,
                 Instruction::Div => self.binary_op(|a, b| a / b).map_err(|err| {
-                    payload_to_error(err, *instr_ptr, &self.runtime_data.call_stack)
+                    payload_to_error(err, src_ptr, &self.runtime_data.call_stack)
                 })?,
                 Instruction::Equals => self.binary_op(|a, b| (a == b).into()).map_err(|err| {
-                    payload_to_error(err, *instr_ptr, &self.runtime_data.call_stack)
+                    payload_to_error(err, src_ptr, &self.runtime_data.call_stack)
                 })?,
                 Instruction::NotEquals => {
                     self.binary_op(|a, b| (a != b).into()).map_err(|err| {
-                        payload_to_error(err, *instr_ptr, &self.runtime_data.call_stack)
+                        payload_to_error(err, src_ptr, &self.runtime_data.call_stack)
                     })?
                 }
                 Instruction::Less => self.binary_op(|a, b| (a < b).into()).map_err(|err| {
-                    payload_to_error(err, *instr_ptr, &self.runtime_data.call_stack)
+                    payload_to_error(err, src_ptr, &self.runtime_data.call_stack)
                 })?,
                 Instruction::LessOrEq => self.binary_op(|a, b| (a <= b).into()).map_err(|err| {
-                    payload_to_error(err, *instr_ptr, &self.runtime_data.call_stack)
+                    payload_to_error(err, src_ptr, &self.runtime_data.call_stack)
                 })?,
                 Instruction::StringLiteral => instr_execution::instr_string_literal(
                     self, instr_ptr, program,
                 )
-                .map_err(|err| payload_to_error(err, *instr_ptr, &self.runtime_data.call_stack))?,
+                .map_err(|err| payload_to_error(err, src_ptr, &self.runtime_data.call_stack))?,
                 Instruction::CallNative => {
                     instr_execution::execute_call_native(self, instr_ptr, &program.bytecode)
                         .map_err(|err| {
-                            payload_to_error(err, *instr_ptr, &self.runtime_data.call_stack)
+                            payload_to_error(err, src_ptr, &self.runtime_data.call_stack)
                         })?
                 }
                 Instruction::Len => instr_execution::instr_len(self).map_err(|err| {
-                    payload_to_error(err, *instr_ptr, &self.runtime_data.call_stack)
+                    payload_to_error(err, src_ptr, &self.runtime_data.call_stack)
                 })?,
                 Instruction::NthRow => {
                     // the operands stay on the stack while the row is allocated
@@ -711,7 +711,7 @@ impl<Aux> Vm<'_, Aux> {
                         self.runtime_data.value_stack.pop_n::<2>();
                     }
                     result.map_err(|err| {
-                        payload_to_error(err, *instr_ptr, &self.runtime_data.call_stack)
+                        payload_to_error(err, src_ptr, &self.runtime_data.call_stack)
                     })?;
                 }
                 Instruction::AppendTable => {
@@ -722,40 +722,40 @@ impl<Aux> Vm<'_, Aux> {
                         get_table_mut(&mut instance).and_then(|table| table.append(value));
                     self.runtime_data.value_stack.pop_n::<2>();
                     result.map_err(|err| {
-                        payload_to_error(err, *instr_ptr, &self.runtime_data.call_stack)
+                        payload_to_error(err, src_ptr, &self.runtime_data.call_stack)
                     })?;
                 }
 
                 Instruction::PopTable => {
                     let mut instance = self.stack_pop();
                     let table = get_table_mut(&mut instance).map_err(|err| {
-                        payload_to_error(err, *instr_ptr, &self.runtime_data.call_stack)
+                        payload_to_error(err, src_ptr, &self.runtime_data.call_stack)
                     })?;
                     let value = table.pop().map_err(|err| {
-                        payload_to_error(err, *instr_ptr, &self.runtime_data.call_stack)
+                        payload_to_error(err, src_ptr, &self.runtime_data.call_stack)
                     })?;
                     self.stack_push(value).map_err(|err| {
-                        payload_to_error(err, *instr_ptr, &self.runtime_data.call_stack)
+                        payload_to_error(err, src_ptr, &self.runtime_data.call_stack)
                     })?;
                 }
                 Instruction::SetUpvalue => {
                     instr_execution::write_upvalue(self, &program.bytecode, instr_ptr).map_err(
-                        |err| payload_to_error(err, *instr_ptr, &self.runtime_data.call_stack),
+                        |err| payload_to_error(err, src_ptr, &self.runtime_data.call_stack),
                     )?;
                 }
                 Instruction::ReadUpvalue => {
                     instr_execution::read_upvalue(self, &program.bytecode, instr_ptr).map_err(
-                        |err| payload_to_error(err, *instr_ptr, &self.runtime_data.call_stack),
+                        |err| payload_to_error(err, src_ptr, &self.runtime_data.call_stack),
                     )?;
                 }
                 Instruction::RegisterUpvalue => {
                     instr_execution::register_upvalue(self, &program.bytecode, instr_ptr).map_err(
-                        |err| payload_to_error(err, *instr_ptr, &self.runtime_data.call_stack),
+                        |err| payload_to_error(err, src_ptr, &self.runtime_data.call_stack),
                     )?;
                 }
                 Instruction::CloseUpvalue => {
                     instr_execution::close_upvalues(self).map_err(|err| {
-                        payload_to_error(err, *instr_ptr, &self.runtime_data.call_stack)
+                        payload_to_error(err, src_ptr, &self.runtime_data.call_stack)
                     })?;
                 }
             }
